@@ -43,6 +43,7 @@
 #include <QUuid>
 #include <QXmlStreamReader>
 
+#include <algorithm>
 #include <functional>
 #include <memory>
 #include <set>
@@ -325,6 +326,7 @@ struct World {
     int connectedSignals = 0, disconnectedSignals = 0, errorSignals = 0;
     int connectedThisConn = 0;
     std::vector<int> sessionBind2Used;      // SessionBegin.bind2Used of every connected()
+    std::vector<int> sessionSmResumed;      // SessionBegin.smResumed of every connected()
     int iqStarted = 0, iqFinished = 0, iqFinishedErr = 0;
     QStringList outstandingIds;        // the application's own requests still waiting for an answer
     long long settleTimeouts = 0;
@@ -391,6 +393,7 @@ struct World {
         QObject::connect(client.get(), &QXmppClient::errorOccurred, client.get(), [this](const QXmppError &) { act++; errorSignals++; events.push_back("error"); });
         QObject::connect(client->strm(), &QXmppOutgoingClient::connected, client.get(), [this](const QXmpp::Private::SessionBegin &s) {
             sessionBind2Used.push_back(s.bind2Used ? 1 : 0);
+            sessionSmResumed.push_back(s.smResumed ? 1 : 0);
         });
         QObject::connect(client->strm()->socket(), &QAbstractSocket::connected, client.get(), [this]() {
             act++; connectedThisConn = 0;
@@ -400,6 +403,7 @@ struct World {
         sent.clear(); events.clear();
         connectedSignals = disconnectedSignals = errorSignals = connectedThisConn = 0;
         sessionBind2Used.clear();
+        sessionSmResumed.clear();
         iqStarted = iqFinished = iqFinishedErr = 0;
         outstandingIds.clear();
     }
@@ -630,13 +634,27 @@ struct Runner {
             QByteArray data = "cj1iYWQ=";
             if (t.value(1) == "1") {
                 auto k = c.conn();
-                QString all = k ? QString::fromUtf8(k->plain + k->secure) : QString();
                 static const QRegularExpression re1("<auth [^>]*>([^<]*)</auth>"), re2("<initial-response>([^<]*)</initial-response>");
-                // the most recent authentication request on this connection
+                // the most recent authentication request on this connection; if there is none, the most recent one of an earlier
+                // connection (a server that continues an exchange the client should have forgotten)
                 QString b64;
-                int at = -1;
-                for (auto it = re1.globalMatch(all); it.hasNext();) { auto m = it.next(); b64 = m.captured(1); at = m.capturedStart(); }
-                for (auto it = re2.globalMatch(all); it.hasNext();) { auto m = it.next(); if (m.capturedStart() > at) { b64 = m.captured(1); at = m.capturedStart(); } }
+                std::vector<std::shared_ptr<Conn>> order;
+                if (k) order.push_back(k);
+                {
+                    std::vector<std::pair<int, std::shared_ptr<Conn>>> older;
+                    for (Server *sv : { &c.srvA, &c.srvB })
+                        for (auto &x : sv->conns)
+                            if (x != k) older.push_back({ c.seqOf[x.get()], x });
+                    std::sort(older.begin(), older.end(), [](auto &a, auto &b) { return a.first > b.first; });
+                    for (auto &x : older) order.push_back(x.second);
+                }
+                for (auto &x : order) {
+                    QString all = QString::fromUtf8(x->plain + x->secure);
+                    int at = -1;
+                    for (auto it = re1.globalMatch(all); it.hasNext();) { auto m = it.next(); b64 = m.captured(1); at = m.capturedStart(); }
+                    for (auto it = re2.globalMatch(all); it.hasNext();) { auto m = it.next(); if (m.capturedStart() > at) { b64 = m.captured(1); at = m.capturedStart(); } }
+                    if (!b64.isEmpty()) break;
+                }
                 QByteArray first = QByteArray::fromBase64(b64.toLatin1());
                 int i = first.indexOf("r=");
                 QByteArray nonce = i >= 0 ? first.mid(i + 2) : QByteArray("x");
@@ -954,7 +972,7 @@ struct Policy {
 
 struct Conforming {
     Policy p;
-    bool tlsDone = false, authed = false, needFeatures = false, done = false, resumableNow = false, bind2Now = false, resumedNow = false;
+    bool tlsDone = false, authed = false, needFeatures = false, done = false, resumableNow = false, bind2Now = false, resumedNow = false, boundNow = false;
     int said = 0;
     bool redirected = false;
     // returns "" when the server has nothing more to say (negotiation finished from the server's point of view)
@@ -985,16 +1003,17 @@ struct Conforming {
             int r = has("+resume") ? (p.resumeOk ? 1 : 2) : 0;
             if (r == 1) b = 0;   // a resumed stream is not bound again
             bind2Now = b != 0;
+            if (b != 0) boundNow = true;
             if (b == 2) resumableNow = true;
             if (r == 1) { resumableNow = true; resumedNow = true; done = true; }
             else needFeatures = true;
             return "success2 " + std::to_string(b) + " " + std::to_string(r) + " 0 1";
         }
-        if (starts("Bind")) return "bindres ok";
+        if (starts("Bind")) { boundNow = true; return "bindres ok"; }
         if (starts("SmEnable")) { resumableNow = p.sm == 2; return p.sm == 2 ? "smenabled 1" : "smenabled 0"; }
         if (starts("SmResume")) { if (p.resumeOk) { resumableNow = true; resumedNow = true; } return p.resumeOk ? "smresumed" : "smfailed"; }
         if (starts("NonSaslQuery")) return "fields 1 1";
-        if (starts("NonSaslAuth")) { authed = true; return "authres 1"; }
+        if (starts("NonSaslAuth")) { authed = true; boundNow = true; return "authres 1"; }   // XEP-0078 binds the resource with the login
         return "";
     }
 };
@@ -1064,7 +1083,12 @@ static AttemptResult runAttempt(Session &s, const Policy &p, int cut, bool sendI
         newStream = false;
         srv.said++;
         s.op(o);
-        if (redirectNow) { srv.tlsDone = false; srv.authed = false; srv.bind2Now = false; srv.needFeatures = false; srv.resumableNow = false; newStream = true; }
+        if (redirectNow) { srv.tlsDone = false; srv.authed = false; srv.bind2Now = false; srv.needFeatures = false; srv.resumableNow = false; srv.boundNow = false; srv.resumedNow = false; newStream = true; }
+        // oracle (server-side knowledge of THIS connection, not the client's requests): a session may only be reported once the server
+        // has bound a resource or has answered <resume/> with <resumed/> on this connection
+        if ((w.client->isConnected() || w.client->state() == QXmppClient::ConnectedState || w.connectedThisConn > 0) && !(srv.boundNow || srv.resumedNow))
+            fail("C10:session-reported-without-bind-or-resume", s.replay());
+        else oraclePass()++;
         // oracle: nothing may be reported as an established session while the server still has something to say
         if (!negotiationOver() && (w.client->isConnected() || w.client->state() == QXmppClient::ConnectedState))
             fail(std::string("C10:session-reported-during-negotiation") + (srv.redirected ? ":after-redirect" : ""), s.replay());
@@ -1084,6 +1108,17 @@ static AttemptResult runAttempt(Session &s, const Policy &p, int cut, bool sendI
         if (w.sessionBind2Used.size() > bind2Idx) {
             bool reported = w.sessionBind2Used.back() == 1;
             if (reported != srv.bind2Now) fail("C10:session-begin-bind2-flag-stale", s.replay());
+            else oraclePass()++;
+        }
+        // resumed may only be claimed if the server sent <resumed/> on THIS connection
+        if (res.connectedSeen && !w.sessionSmResumed.empty()) {
+            bool claimed = w.sessionSmResumed.back() == 1 || w.client->streamManagementState() == QXmppClient::ResumedStream;
+            if (claimed != srv.resumedNow) fail("C10:session-begin-resumed-flag-stale", s.replay());
+            else oraclePass()++;
+        }
+        // a session that was not resumed cannot answer the requests of the old one: they must be finished by now
+        if (res.connectedSeen && !srv.resumedNow) {
+            if (w.iqStarted - w.iqFinished != 0) fail("C10:request-outlives-new-session", s.replay());
             else oraclePass()++;
         }
         if (sendIqWhenUp && w.client->isConnected()) s.op("sendiq");
@@ -1131,6 +1166,37 @@ static void exploreC10(Runner &r, Rng &rng, bool thorough)
             stat("c10:runs");
         });
     }
+    // (0b) three consecutive connections with stream management: new resumable session + outstanding request, cut; <resume/> accepted,
+    // cut again; <resume/> refused (the server must bind again) - for classic and inline (SASL2) resumption, all combinations
+    auto triple = [&](const Policy &pa1, const Policy &pa2, const Policy &pb, int cfgIdx, int cut3, bool iq2) {
+        experiment(r.w.settleTimeouts, nullptr, [&]() {
+            Session s(r, cfgs[size_t(cfgIdx)]);
+            bool resumable = false;
+            runAttempt(s, pa1, -1, true, resumable);
+            cutAndCheck(s, resumable);
+            runAttempt(s, pa2, -1, iq2, resumable);
+            cutAndCheck(s, resumable);
+            auto a3 = runAttempt(s, pb, cut3, false, resumable);
+            if (cut3 >= 0 && !a3.reachedDone) {
+                cutAndCheck(s, resumable);
+                runAttempt(s, pb, -1, false, resumable);
+            }
+            stat("c10:runs");
+            stat("c10:resume-then-refused-triples");
+        });
+    };
+    {
+        const char *accept[] = { "sasl-bind-smr", "sasl2-bind2-smr" };
+        const char *refuse[] = { "sasl-bind-smr-noresume", "sasl2-bind2-smr-noresume" };
+        for (int ci = 0; ci < 2; ci++)
+            for (auto a1 : accept)
+                for (auto a2 : accept)
+                    for (auto b : refuse) {
+                        triple(byName(a1), byName(a2), byName(b), ci, -1, false);
+                        triple(byName(a1), byName(a2), byName(b), ci, -1, true);
+                        for (int cut3 = 0; cut3 < (thorough ? 9 : 0); cut3++) triple(byName(a1), byName(a2), byName(b), ci, cut3, true);
+                    }
+    }
     // (1) every policy x every cut point, then a full attempt with the same policy
     for (size_t ci = 0; ci < cfgs.size(); ci++)
         for (auto &p : pols) {
@@ -1144,7 +1210,7 @@ static void exploreC10(Runner &r, Rng &rng, bool thorough)
                     lastCut = a1.reachedDone;   // the script was shorter than the cut: this is the cut of an established session
                     cutAndCheck(s, resumable);
                     auto a2 = runAttempt(s, p, -1, false, resumable);
-                    if (a2.reachedDone && !a2.resumedNow && (s.r.w.iqStarted - s.r.w.iqFinished) != 0) fail("C10:request-outlives-new-session", s.replay());
+                    (void)a2;
                     stat("c10:runs");
                 });
                 if (lastCut) break;
@@ -1254,6 +1320,28 @@ static void exploreC04(Runner &r, Rng &rng, bool thorough)
     runC04Script(r, cfgs[0], { "hdr 1 1", "iqget version" });
     runC04Script(r, cfgs[0], { "hdr 1 1", "feat t0 mp a1" });
     runC04Script(r, cfgs[1], { "hdr 1 1", "feat t1 mp a1 b1", "proceed 1", "hdr 1 1", "feat t0 mp a1", "success 1", "hdr 1 1", "feat t0 b1", "bindres ok" });
+    // reconnect histories: the connection is lost at every point of a STARTTLS + authentication + bind flow, the application
+    // connects again, and the new (plain-text) peer sends its header and then ONE element that belongs to the old exchange -
+    // nothing negotiated on the dead connection may be continued in clear on the new one
+    {
+        const std::vector<std::vector<std::string>> flows = {
+            { "hdr 1 1", "feat t1 ms", "proceed 1", "hdr 1 1", "feat t0 ms", "challenge 1", "success 1", "hdr 1 1", "feat t0 b1 s1", "bindres ok", "smenabled 1" },
+            { "hdr 1 1", "feat t1 mp", "proceed 1", "hdr 1 1", "feat t0 mp", "success 1", "hdr 1 1", "feat t0 b1", "bindres ok" },
+            { "hdr 1 1", "feat t1", "proceed 1", "hdr 1 1", "feat t0 zs200", "challenge2 1", "success2 2 0 0 1", "feat t0 s1" },
+        };
+        const std::vector<std::string> stale = { "challenge 1", "challenge 0", "success 1", "success 0", "failure", "proceed 1", "bindres ok", "fields 1 1",
+                                                 "authres 1", "smenabled 1", "smresumed", "challenge2 1", "success2 1 0 0 1", "iqget version", "feat t0 mp a1 b1" };
+        Cfg c; c.tls = 2; c.plainOk = true;
+        for (auto &fl : flows)
+            for (size_t cut = 1; cut <= fl.size(); cut++)
+                for (auto &x : stale) {
+                    if (!thorough && (cut + std::hash<std::string>()(x)) % 3 != 0 && x != "challenge 1" && x != "challenge2 1" && x != "bindres ok") continue;
+                    std::vector<std::string> sc(fl.begin(), fl.begin() + long(cut));
+                    sc.push_back("drop"); sc.push_back("connect"); sc.push_back("hdr 1 1"); sc.push_back(x);
+                    runC04Script(r, c, sc);
+                    stat("c04:reconnect-histories");
+                }
+    }
     for (size_t ci = 0; ci < cfgs.size(); ci++) {
         int d = (ci == 0) ? depth : (ci == 1 ? depth : depth - 1);
         std::vector<int> idx;
